@@ -27,6 +27,35 @@ impl fmt::Display for Credentials {
     }
 }
 
+mod filters {
+    use std::fmt::Write;
+
+    use askama::{Result, Values, filters::Safe};
+
+    /// Escapes a value for use inside a quoted JavaScript string literal that is
+    /// part of an HTML `<script>` element.
+    ///
+    /// HTML character references are not decoded inside a script, so the HTML
+    /// escaper must not be used there. Every character that could end the string
+    /// literal, start an escape sequence, or end the script element (quotes,
+    /// backslash, `<`, `>`, `&`, control characters, U+2028 and U+2029) is written
+    /// as a `\uXXXX` escape instead.
+    #[askama::filter_fn]
+    pub fn js_string(s: impl ToString, _: &dyn Values) -> Result<Safe<String>> {
+        let s = s.to_string();
+        let mut out = String::with_capacity(s.len());
+        for c in s.chars() {
+            match c {
+                '\\' | '\'' | '"' | '<' | '>' | '&' | '\u{2028}' | '\u{2029}' | '\u{7f}' | '\0'..='\u{1f}' => {
+                    write!(out, "\\u{:04X}", c as u32)?;
+                }
+                c => out.push(c),
+            }
+        }
+        Ok(Safe(out))
+    }
+}
+
 struct GraphiQLVersion<'a>(&'a str);
 
 impl Default for GraphiQLVersion<'_> {
